@@ -216,6 +216,7 @@ fn one_spawn(v: &Value, files: &mut Files, out: &mut Vec<String>, idx: usize) {
     let pcwd: String = std::env::current_dir().unwrap().as_os_str().as_bytes().iter().map(|b| format!("{:02x}", b)).collect();
     out.push(json!({"e":"pre","i":idx,"fds":pre,"pass":passed,"penv":penv,"pcwd":pcwd}).to_string());
     slog::set_fault(fault_of(&v["fault"]));
+    slog::FAULT_DELAY_US.store(v["fault"]["delay_us"].as_u64().unwrap_or(0), std::sync::atomic::Ordering::SeqCst);
     slog::PARENT_DELAY_AFTER_FORK_US.store(v["parent_delay_us"].as_u64().unwrap_or(0), std::sync::atomic::Ordering::SeqCst);
     slog::resume();
     let res = catch_unwind(AssertUnwindSafe(|| Popen::create(&argv, cfg)));
@@ -230,6 +231,7 @@ fn one_spawn(v: &Value, files: &mut Files, out: &mut Vec<String>, idx: usize) {
     unsafe { environ = saved_environ };
     slog::PARENT_DELAY_AFTER_FORK_US.store(0, std::sync::atomic::Ordering::SeqCst);
     slog::set_fault(None);
+    slog::FAULT_DELAY_US.store(0, std::sync::atomic::Ordering::SeqCst);
     let (forked, child_pids) = sys_events(out);
     match res {
         Ok(Ok(mut p)) => {
